@@ -36,6 +36,12 @@ func coreLocks(tier string) []RunSpec {
 			}
 		}
 	}
+	// locktime at numeric edge values ("never expires"): no witness / lock key / refund key
+	for _, wv := range []int{0, 3, 10, 11} {
+		for k := 0; k < 3; k++ {
+			out = append(out, RunSpec{Profile: "core:locktime-edge", Params: map[string]int{"wv": wv, "flag": 0, "lt": 3, "k": k}})
+		}
+	}
 	for ov := 0; ov < numOutWit; ov++ {
 		for pos := 0; pos < 3; pos++ {
 			out = append(out, RunSpec{Profile: "core:sigall-outputs", Params: map[string]int{"ov": ov, "flag": 1, "pos": pos, "wv": 3}})
@@ -89,7 +95,7 @@ func (lr *lockRun) drawCfg(rc *RunCtx) *LockCfg {
 		c.Pubkeys = []int{1, 2, 1}
 		c.NSigs = rc.P("nsigs", 3)
 	}
-	lt := T.Pick("lock.lt", 3, 2, 2)
+	lt := T.Pick("lock.lt", 6, 4, 4, 1)
 	if v, ok := rc.Spec.Params["lt"]; ok {
 		lt = v
 	}
@@ -98,6 +104,9 @@ func (lr *lockRun) drawCfg(rc *RunCtx) *LockCfg {
 		c.Locktime = now + int64(300+T.Choose("lock.future", 3000))
 	case 2:
 		c.Locktime = now - int64(1+T.Choose("lock.past", 3000))
+	case 3:
+		// "never expires": numeric edge values far in the future
+		c.Locktime = []int64{1 << 31, 1<<32 + 5, 1 << 62, 9223371974719179008, 1<<63 - 1}[T.Choose("lock.edge", 5)]
 	}
 	nr := T.Choose("lock.nrefund", 3)
 	for i := 0; i < nr; i++ {
